@@ -5,6 +5,7 @@ import (
 
 	"github.com/zishang520/engine.io-go-parser/packet"
 	"github.com/zishang520/engine.io/v2/transports"
+	"github.com/zishang520/engine.io/v2/config"
 	"github.com/zishang520/engine.io/v2/types"
 	verif "github.com/zishang520/engine.io/v2/internal/zzverif"
 )
@@ -101,4 +102,43 @@ func VerifH_C09_heartbeat_races_close() {
 			verif.Assert(w.sock.ReadyState() == "closed", "closed")
 		}
 	})
+}
+
+// VerifH_C09_session_closes_during_request: a request naming a live session is being
+// handled when that session closes from elsewhere (its own close packet on another request,
+// an aborted poll, a timeout) at any yield point of the handler: the handler does not crash;
+// the request is either dispatched to the session's transport or answered 'Session ID unknown'.
+func VerifH_C09_session_closes_during_request() {
+	opts := config.DefaultServerOptions()
+	ps := newProtoServer(opts)
+	c1, _ := newCtx("GET", "/engine.io/")
+	c1.Query().Set("EIO", "4")
+	tp := newFakeTransport(transports.POLLING, c1)
+	sp := NewSocket("sidP", ps, tp, c1, 4)
+	ps.Clients().Store("sidP", sp)
+	sp.Once("close", func(...any) { ps.Clients().Delete("sidP") })
+	tp.onRequest = func(c *types.HttpContext) { respond(nil, c) }
+	cause := verif.Choose(3)
+	verif.Event("the session closes from elsewhere", func() {
+		switch cause {
+		case 0:
+			tp.OnClose()
+		case 1:
+			sp.Close(true)
+		case 2:
+			tp.OnError("gone", nil)
+		}
+	})
+	method := [2]string{"GET", "POST"}[verif.Choose(2)]
+	ctx, w := newCtx(method, "/engine.io/")
+	ctx.Query().Set("transport", transports.POLLING)
+	ctx.Query().Set("EIO", "4")
+	ctx.Query().Set("sid", "sidP")
+	verif.InjectBudget(1)
+	ps.HandleRequest(ctx)
+	verif.InjectBudget(0)
+	verif.Assert(w.writeCalls <= 1, "at most one response")
+	if w.writeCalls == 1 && len(w.status) == 1 && w.status[0] == 400 && len(w.bodies) == 1 {
+		verif.Assert(verif.JSONInt(w.bodies[0], "code") == 1, "a request that lost its session is answered 'Session ID unknown'")
+	}
 }
